@@ -78,7 +78,7 @@ GSpec == GInit /\ [][GNext]_gvars
 
 Issued == {r \in Req : rq[r].st # "none"}
 Expect(r) == [r |-> r,
-              must |-> Got(r) \cup (IF Open(r) /\ ~rq[r].canc THEN Deliverable(r) ELSE {}),
+              must |-> Got(r) \cup (IF Open(r) /\ ~rq[r].canc /\ Obligated(r) THEN Deliverable(r) ELSE {}),
               may  |-> {b \in KeySet(r) : Reachable(rq[r].node, b) \/ b \in larr[r]},
               fin  |-> IF ~Open(r) THEN "closed" ELSE IF Obligated(r) THEN "wait" ELSE "cancel"]
 Script == [n |-> MaxNode, nb |-> MaxBlock, edges |-> <<<<1, 2>>, <<1, 3>>>>,
@@ -107,6 +107,7 @@ GSpecSim == GInit /\ [][GNextSim]_gvars
 P(a, b, c) == <<a, b, c>>                       \* has[1], has[2], has[3]
 PlacesNone  == { P({}, {}, {}) }
 PlacesSmall == { P({}, {}, {}), P({}, {1}, {2}), P({}, {1, 2}, {2}) }
+PlacesTwo   == { P({}, {1}, {2}), P({}, {1, 2}, {2}) }
 PlacesAll   == { P({}, x, y) : x \in SUBSET Block, y \in SUBSET Block } \cup { P({1}, {2}, {1}) }
 RC(k, ks) == [kind |-> k, keys |-> ks]
 ReqOne   == { RC("GetBlocks", <<1>>) }
